@@ -330,6 +330,10 @@ def run_headscache(ck, prop, tier, n_sim):
     res = vlib.run_vh('headscache', inp, tag=prop + '-hc', timeout=600 if tier == 'quick' else 3000)
     allv = res.get('violations', [])
     res['violations'] = [v for v in allv if v['kind'] in HC_KINDS[prop]]
+    for v in allv:
+        if v['kind'] == 'log-differs':
+            # the log in memory is not the specification's: a disagreement of the model with the code, not a verdict on a property
+            ck.notes.append('headscache %s step %s: %s' % (v.get('behaviour'), v.get('step'), v.get('detail', '')[:200]))
     byid = {b['id']: b for b in bs}
 
     def payload(v):
